@@ -1,3 +1,4 @@
+mod benchstream;
 mod guessstream;
 mod metastream;
 mod opsstream;
@@ -212,7 +213,12 @@ fn main() {
             }
             for k in 0..count {
                 let idx = from + k;
-                let c = metastream::run_case(master, idx, &profile);
+                let c = if profile == "bench" {
+                    let b = benchstream::run_case(master, idx);
+                    metastream::MetaCase { coq: b.coq, json: b.json }
+                } else {
+                    metastream::run_case(master, idx, &profile)
+                };
                 let sh = (k % shards) as usize;
                 write!(vfiles[sh], "{}", c.coq).unwrap();
                 writeln!(vfiles[sh], "Eval vm_compute in (judge_meta m{}).", idx).unwrap();
